@@ -43,11 +43,16 @@ CONFIG = {
              "single-node trees and pure chains included) made exactly ultrametric from drawn dyadic node heights (k/8, "
              "zero increments give parent/child age ties) x start nodes (seed + 3 drawn; every node when the tree has "
              "<= 8 nodes) x 2 drawn filter predicates (parity of preorder index, leaf-only, internal-only, never, "
-             "always, drawn bit mask; truthy result drawn from True/1/'x'/2.5/[0], falsy result from False/0/''/None/"
-             "0.0/[]) plus no filter x every iterator / collection method of Node and Tree (see module docstring) x "
+             "always, drawn bit mask, and two STATEFUL predicates whose answer depends only on the call number: every "
+             "m-th call, drawn call-number bit mask; truthy result drawn from True/1/'x'/2.5/[0], falsy result from "
+             "False/0/''/None/0.0/[]; 2 of 3 predicates are PARTIAL: they raise the harness exception OutsideClass when "
+             "applied to an object that is not a member of the class the iterator ranges over - non-leaves for leaf "
+             "iterators, leaves or the excluded seed for internal iterators, leaves for age-order without leaves, "
+             "nodes outside the subtree / non-children / non-ancestors, a Node for an edge iterator and vice versa) "
+             "plus no filter x every iterator / collection method of Node and Tree (see module docstring) x "
              "exclude_seed_node/edge x include_leaves x descending x 8 None-patterns of apply callbacks. Exhaustive "
              "part: every ordered shape with <= 5 (quick) / <= 6 (thorough) leaves, as is and with a unifurcation "
-             "inserted above each node in turn, unit-step heights, x every start node x 7 fixed filters x every "
+             "inserted above each node in turn, unit-step heights, x every start node x 9 fixed filters x every "
              "iterator. Non-trivial = tree has >= 3 nodes (pre-, post- and level-order pairwise different); distinct "
              "= (ordered shape with heights, starts, filters). "
              "History part: tree (3-8 leaves quick / <= 20 thorough, rooted/unrooted/undefined) -> 1-3 cache-filling "
@@ -63,13 +68,20 @@ CONFIG = {
              "nodes x start nodes {seed, largest child subtree, middle of preorder, last node} x {no filter, parity "
              "filter} x every iterator (in-order only when depth <= 100: the library's in-order is recursive)."),
     "exhaustive_note": {"quick": "all ordered shapes with 1-5 leaves (61) + each with one unifurcation above each node, "
-                                 "x every start node x 7 filters x every iterator; all ordered shapes with 3-4 leaves "
+                                 "x every start node x 9 filters x every iterator; all ordered shapes with 3-4 leaves "
                                  "x 3 cache sets x 5 restructuring ops x every target; 36 listed large trees",
                         "thorough": "all ordered shapes with 1-6 leaves (258) + each with one unifurcation above each "
-                                    "node, x every start node x 7 filters x every iterator; all ordered shapes with "
+                                    "node, x every start node x 9 filters x every iterator; all ordered shapes with "
                                     "3-5 leaves x 3 cache sets x 5 restructuring ops x every target; 74 listed large "
                                     "trees"},
     "assumptions": ["filter results are interpreted by truthiness (docstrings speak of True/False only)",
+                    "the filter of an iterator is applied only to members of the iterator's own class, once each, in "
+                    "the iterator's order (statement: filtered variants yield exactly the subsequence [of that "
+                    "iterator] that passes the filter). Measured on the unmodified library: every filter-taking "
+                    "iterator of Node and Tree (incl. internal, leaf, child, ancestor, age-order, edge and deprecated "
+                    "variants) already behaves so, so partial and stateful predicates are asserted for all of them, "
+                    "no exception. For level- and age-order the expected stateful selection is taken from the order "
+                    "of the (independently validated) unfiltered run; for all others from the reference traversal",
                     "exclude_seed_node / exclude_seed_edge skip the parentless seed node of the tree, not the start "
                     "node of a Node-level iteration",
                     "level-order: only exactly-once and non-decreasing depth are asserted (no left-to-right promise in "
@@ -87,7 +99,8 @@ CONFIG = {
 
 TRUTHY = [True, 1, "x", 2.5, [0]]
 FALSY = [False, 0, "", None, 0.0, []]
-FILTER_KINDS = ["parity", "leaf", "internal", "none", "all", "mask"]
+FILTER_KINDS = ["parity", "leaf", "internal", "none", "all", "mask", "count", "callmask", "count"]
+STATEFUL_KINDS = ("count", "callmask")   # result depends on how often the predicate has been called before
 
 FIXED_FILTERS = [
     {"kind": "parity", "p": 0, "mask": 0, "tv": 0, "fv": 0},
@@ -97,6 +110,8 @@ FIXED_FILTERS = [
     {"kind": "none", "p": 0, "mask": 0, "tv": 0, "fv": 1},
     {"kind": "none", "p": 0, "mask": 0, "tv": 0, "fv": 3},
     {"kind": "all", "p": 0, "mask": 0, "tv": 2, "fv": 0},
+    {"kind": "count", "p": 0, "mask": 3, "tv": 0, "fv": 0, "partial": True},        # every 2nd call passes (2nd, 4th..)
+    {"kind": "callmask", "p": 0, "mask": 0x5A6C93A5, "tv": 1, "fv": 3, "partial": False},
 ]
 
 
@@ -142,7 +157,7 @@ def insert_unifurcation(spec, k):
 def filter_specs(draw):
     return {"kind": draw(st.sampled_from(FILTER_KINDS)), "p": draw(st.integers(0, 1)),
             "mask": draw(st.integers(0, 2 ** 40)), "tv": draw(st.integers(0, len(TRUTHY) - 1)),
-            "fv": draw(st.integers(0, len(FALSY) - 1))}
+            "fv": draw(st.integers(0, len(FALSY) - 1)), "partial": draw(st.sampled_from([True, True, False]))}
 
 
 @st.composite
@@ -238,7 +253,50 @@ def pass_set(fs, rt):
         return frozenset(nodes)
     if kind == "mask":
         return frozenset(i for i in nodes if (fs["mask"] >> (i % 41)) & 1)
+    if kind in STATEFUL_KINDS:
+        return None
     raise runner.HarnessError(kind)
+
+
+def call_passes(fs, k):
+    """Stateful predicates: does the k-th call (0-based) pass?"""
+    if fs["kind"] == "count":
+        m = 2 + fs["mask"] % 3
+        return k % m == (fs["mask"] // 3) % m
+    if fs["kind"] == "callmask":
+        return bool((fs["mask"] >> (k % 41)) & 1)
+    raise runner.HarnessError(fs["kind"])
+
+
+class Sel(object):
+    """One filter of a case: either a fixed set of passing node indices, or a rule on the call number."""
+
+    def __init__(self, fs, rt):
+        self.fs = fs
+        self.stateful = fs is not None and fs["kind"] in STATEFUL_KINDS
+        self.P = None if (fs is None or self.stateful) else pass_set(fs, rt)
+        self.partial = fs is not None and fs.get("partial", True)
+
+    def pick(self, seq):
+        """What a filtered iterator must yield when its class, in the order the predicate is applied, is `seq`."""
+        if self.fs is None:
+            return list(seq)
+        if self.stateful:
+            return [i for k, i in enumerate(seq) if call_passes(self.fs, k)]
+        return [i for i in seq if i in self.P]
+
+
+class OutsideClass(Exception):
+    """Raised by a partial predicate of this harness when the library applies it to an object that is not a member
+    of the iterator's class (e.g. a leaf-iterator predicate called on an internal node, an edge predicate on a Node)."""
+
+
+class FilterLog(list):
+    """Wrong-type arguments seen by a predicate (list items) and out-of-class arguments (.stray)."""
+
+    def __init__(self):
+        list.__init__(self)
+        self.stray = []
 
 
 def indexed_newick(rt, label=None):
@@ -301,25 +359,41 @@ class Probe(object):
             for c in rt.children[i]:
                 self.depth[c] = self.depth[i] + 1
         self.where = ""
+        self.runs = {"partial": 0, "total": 0, "stateful": 0}
 
     def detail(self, what, got, want):
         return "%s on %s [%s]: %s" % (what, self.newick, self.where, brief(got, want))
 
-    def mkfilter(self, fs, P, edges):
-        """(callable or None, list collecting arguments of the wrong kind)."""
+    def mkfilter(self, sel, edges, domain):
+        """(callable or None, FilterLog).  `domain`: indices of the members of the iterator's class, i.e. the only
+        objects the predicate may be applied to.  A fresh call counter per callable."""
+        log = FilterLog()
+        fs = sel.fs
         if fs is None:
-            return None, []
+            return None, log
         table = self.edge_ix if edges else self.node_ix
         tv, fv = TRUTHY[fs["tv"]], FALSY[fs["fv"]]
-        bad = []
+        domain = frozenset(domain)
+        calls = [0]
+        partial, stateful, P = sel.partial, sel.stateful, sel.P
+        self.runs["partial" if partial else "total"] += 1
+        if stateful:
+            self.runs["stateful"] += 1
 
         def f(x):
             i = table.get(id(x))
+            if partial and (i is None or i not in domain):
+                log.stray.append("%s %s" % (type(x).__name__, "?" if i is None else i))
+                raise OutsideClass(log.stray[-1])
             if i is None:
-                bad.append(type(x).__name__)
+                log.append(type(x).__name__)
                 return fv
+            if stateful:
+                k = calls[0]
+                calls[0] += 1
+                return tv if call_passes(fs, k) else fv
             return tv if i in P else fv
-        return f, bad
+        return f, log
 
     def run(self, name, thunk, edges=False, allowed=()):
         """Consume the iterable returned by thunk() (bounded) and translate items to node indices."""
@@ -333,7 +407,13 @@ class Probe(object):
                 if len(out) > limit:
                     break
             return out
-        items = ctx.call("C15.exception:" + name, consume, _allowed=allowed)
+        try:
+            items = ctx.call("C15.exception:" + name, consume, _allowed=allowed)
+        except OutsideClass as e:
+            ctx.fail("filter_applied_only_to_members_of_the_iterators_class", "C15.filter_domain:" + name,
+                     self.detail(name + " applied filter_fn to %s, not a member of the class it iterates over" % e,
+                                 None, None))
+            raise runner.KnownSkip()
         table = self.edge_ix if edges else self.node_ix
         got = []
         for x in items:
@@ -351,6 +431,9 @@ class Probe(object):
     def expect(self, name, got, want, key=None, bad=()):
         self.ctx.check(not bad, "filter_called_with_documented_argument_type", "C15.filter_arg:" + name,
                        lambda: self.detail(name + " filter got " + ",".join(sorted(set(bad))), None, None))
+        stray = getattr(bad, "stray", ())
+        self.ctx.check(not stray, "filter_applied_only_to_members_of_the_iterators_class", "C15.filter_domain:" + name,
+                       lambda: self.detail(name + " applied filter_fn to " + ",".join(stray[:5]), None, None))
         return self.ctx.check(got == want, name + "_exactly_once_in_defining_order", key or ("C15." + name),
                               lambda: self.detail(name, got, want))
 
@@ -377,16 +460,22 @@ def check_built(ctx, tree, rt, starts, filters, precalc=False, all_apply=True, a
     height = ref_heights(rt) if ages else None
     isleaf = [not rt.children[i] for i in range(n)]
     nleaves = sum(isleaf)
-    psets = [None] + [pass_set(fs, rt) for fs in filters]
     fspecs = [None] + list(filters)
+    psets = [Sel(fs, rt) for fs in fspecs]   # historical name: one selector per filter
 
-    def filt(seq, P):
-        return [i for i in seq if P is None or i in P]
+    def filt(seq, sel):
+        return sel.pick(seq)
 
     def ftag(fs):
         if fs is None:
             return "no filter"
-        return "filter %s p=%d -> %r/%r" % (fs["kind"], fs["p"], TRUTHY[fs["tv"]], FALSY[fs["fv"]])
+        if fs["kind"] in STATEFUL_KINDS:
+            rule = "count m=%d r=%d" % (2 + fs["mask"] % 3, (fs["mask"] // 3) % (2 + fs["mask"] % 3)) \
+                if fs["kind"] == "count" else "callmask %#x" % fs["mask"]
+            return "stateful filter %s%s -> %r/%r" % (rule, " (partial)" if fs.get("partial", True) else "",
+                                                      TRUTHY[fs["tv"]], FALSY[fs["fv"]])
+        return "filter %s p=%d%s -> %r/%r" % (fs["kind"], fs["p"], " (partial)" if fs.get("partial", True) else "",
+                                              TRUTHY[fs["tv"]], FALSY[fs["fv"]])
 
     def monotone_depth(seq):
         return all(pr.depth[a] <= pr.depth[b] for a, b in zip(seq, seq[1:]))
@@ -397,8 +486,10 @@ def check_built(ctx, tree, rt, starts, filters, precalc=False, all_apply=True, a
         return all(height[a] <= height[b] for a, b in zip(seq, seq[1:]))
 
     def check_level(name, got, s, P, unfiltered, bad):
-        want_set = sorted(filt(rt.preorder(s), P))
-        pr.expect(name, sorted(got), want_set, "C15.%s:exactly_once" % name, bad)
+        if P.stateful:  # membership depends on the order of application: judged against the unfiltered order below
+            pr.expect(name, len(got), len(filt(rt.preorder(s), P)), "C15.%s:exactly_once" % name, bad)
+        else:
+            pr.expect(name, sorted(got), sorted(filt(rt.preorder(s), P)), "C15.%s:exactly_once" % name, bad)
         ctx.check(monotone_depth(got), name + "_non_decreasing_depth", "C15.%s:depth_order" % name,
                   lambda: pr.detail(name + " depths %r" % [pr.depth[i] for i in got], got, "non-decreasing depth"))
         if unfiltered is not None:
@@ -407,7 +498,10 @@ def check_built(ctx, tree, rt, starts, filters, precalc=False, all_apply=True, a
 
     def check_age(name, got, s, P, include_leaves, descending, unfiltered, bad):
         base = [i for i in rt.preorder(s) if include_leaves or not isleaf[i]]
-        pr.expect(name, sorted(got), sorted(filt(base, P)), "C15.%s:exactly_once" % name, bad)
+        if P.stateful:
+            pr.expect(name, len(got), len(filt(base, P)), "C15.%s:exactly_once" % name, bad)
+        else:
+            pr.expect(name, sorted(got), sorted(filt(base, P)), "C15.%s:exactly_once" % name, bad)
         ctx.check(monotone_age(got, descending), name + "_monotone_age", "C15.%s:age_order" % name,
                   lambda: pr.detail(name + " ages %r descending=%r" % ([height[i] for i in got], descending), got,
                                     "monotone"))
@@ -447,7 +541,7 @@ def check_built(ctx, tree, rt, starts, filters, precalc=False, all_apply=True, a
         for desc in (False, True):
             for fs, P in zip(fspecs, psets):
                 pr.where = "Tree, %s, include_leaves=%r descending=%r" % (ftag(fs), il, desc)
-                f, bad = pr.mkfilter(fs, P, False)
+                f, bad = pr.mkfilter(P, False, [i for i in pre_all if il or not isleaf[i]])
                 got = pr.run("tree_ageorder", lambda: tree.ageorder_node_iter(include_leaves=il, filter_fn=f,
                                                                              descending=desc))
                 check_age("tree_ageorder", got, root, P, il, desc, age_unf.get((il, desc)), bad)
@@ -488,7 +582,7 @@ def check_built(ctx, tree, rt, starts, filters, precalc=False, all_apply=True, a
                 ("tree_edges", lambda f: tree.edges(filter_fn=f), pre_all, True),
                 ("tree_postorder_edge", lambda f: tree.postorder_edge_iter(filter_fn=f), post_all, True),
                 ("tree_leaf_edge", lambda f: tree.leaf_edge_iter(filter_fn=f), leaves_all, True)):
-            f, bad = pr.mkfilter(fs, P, edges)
+            f, bad = pr.mkfilter(P, edges, want)
             pr.expect(name, pr.run(name, lambda: call(f), edges=edges), filt(want, P), bad=bad)
         for ex in (False, True):
             pr.where = "Tree, %s, exclude_seed=%r" % (ftag(fs), ex)
@@ -497,15 +591,15 @@ def check_built(ctx, tree, rt, starts, filters, precalc=False, all_apply=True, a
                     ("tree_postorder_internal_node", lambda f: tree.postorder_internal_node_iter(filter_fn=f, exclude_seed_node=ex), ints_post, False),
                     ("tree_preorder_internal_edge", lambda f: tree.preorder_internal_edge_iter(filter_fn=f, exclude_seed_edge=ex), ints_pre, True),
                     ("tree_postorder_internal_edge", lambda f: tree.postorder_internal_edge_iter(filter_fn=f, exclude_seed_edge=ex), ints_post, True)):
-                f, bad = pr.mkfilter(fs, P, edges)
-                w = [i for i in filt(want, P) if not (ex and i == root)]
-                pr.expect(name, pr.run(name, lambda: call(f), edges=edges), w, bad=bad)
+                members = [i for i in want if not (ex and i == root)]   # the class: internal, seed excluded on request
+                f, bad = pr.mkfilter(P, edges, members)
+                pr.expect(name, pr.run(name, lambda: call(f), edges=edges), filt(members, P), bad=bad)
         pr.where = "Tree, " + ftag(fs)
         # level order: nodes, then edges = edges of the nodes the node counterpart yields
-        f, bad = pr.mkfilter(fs, P, False)
+        f, bad = pr.mkfilter(P, False, pre_all)
         got_n = pr.run("tree_levelorder_node", lambda: tree.levelorder_node_iter(filter_fn=f))
         check_level("tree_levelorder_node", got_n, root, P, lvl_unf, bad)
-        f, bad = pr.mkfilter(fs, P, True)
+        f, bad = pr.mkfilter(P, True, pre_all)
         got_e = pr.run("tree_levelorder_edge", lambda: tree.levelorder_edge_iter(filter_fn=f), edges=True)
         check_level("tree_levelorder_edge", got_e, root, P, lvl_edge_unf, bad)
         ctx.check(got_e == got_n, "levelorder_edges_are_edges_of_levelorder_nodes", "C15.tree_levelorder_edge:counterpart",
@@ -514,9 +608,9 @@ def check_built(ctx, tree, rt, starts, filters, precalc=False, all_apply=True, a
             lvl_unf, lvl_edge_unf = got_n, got_e
             ctx.cls("levelorder:left_to_right_within_level" if got_n == rt.levelorder() else "levelorder:other_order_within_level")
         # in-order
-        f, bad = pr.mkfilter(fs, P, False)
+        f, bad = pr.mkfilter(P, False, pre_all)
         check_inorder("tree_inorder_node", lambda: tree.inorder_node_iter(filter_fn=f), root, P, bad)
-        f, bad = pr.mkfilter(fs, P, True)
+        f, bad = pr.mkfilter(P, True, pre_all)
         check_inorder("tree_inorder_edge", lambda: tree.inorder_edge_iter(filter_fn=f), root, P, bad, edges=True)
 
     # deprecated aliases (same contracts)
@@ -524,16 +618,16 @@ def check_built(ctx, tree, rt, starts, filters, precalc=False, all_apply=True, a
         warnings.simplefilter("always")
         fs, P = fspecs[-1], psets[-1]
         pr.where = "Tree deprecated alias, " + ftag(fs)
-        f, bad = pr.mkfilter(fs, P, False)
+        f, bad = pr.mkfilter(P, False, pre_all)
         got = pr.run("tree_level_order_node", lambda: tree.level_order_node_iter(filter_fn=f))
         check_level("tree_level_order_node", got, root, P, lvl_unf, bad)
-        f, bad = pr.mkfilter(fs, P, True)
+        f, bad = pr.mkfilter(P, True, pre_all)
         got = pr.run("tree_level_order_edge", lambda: tree.level_order_edge_iter(filter_fn=f), edges=True)
         check_level("tree_level_order_edge", got, root, P, lvl_edge_unf, bad)
-        f, bad = pr.mkfilter(fs, P, False)
+        f, bad = pr.mkfilter(P, False, leaves_all)
         pr.expect("tree_leaf_iter", pr.run("tree_leaf_iter", lambda: tree.leaf_iter(filter_fn=f)), filt(leaves_all, P), bad=bad)
         if ages:
-            f, bad = pr.mkfilter(fs, P, False)
+            f, bad = pr.mkfilter(P, False, ints_pre)
             got = pr.run("tree_age_order_node", lambda: tree.age_order_node_iter(include_leaves=False, filter_fn=f, descending=True))
             check_age("tree_age_order_node", got, root, P, False, True, age_unf[(False, True)], bad)
 
@@ -579,28 +673,28 @@ def check_built(ctx, tree, rt, starts, filters, precalc=False, all_apply=True, a
                     ("node_ancestor", lambda f: nd.ancestor_iter(filter_fn=f), anc, False),
                     ("node_ancestor_inclusive", lambda f: nd.ancestor_iter(filter_fn=f, inclusive=True), [s] + anc, False),
                     ("node_ancestor_exclusive", lambda f: nd.ancestor_iter(filter_fn=f, inclusive=False), anc, False)):
-                f, bad = pr.mkfilter(fs, P, edges)
+                f, bad = pr.mkfilter(P, edges, want)
                 pr.expect(name, pr.run(name, lambda: call(f), edges=edges), filt(want, P), bad=bad)
             for ex in (False, True):
                 pr.where = "Node %d, %s, exclude_seed_node=%r" % (s, ftag(fs), ex)
                 for name, call, want in (
                         ("node_preorder_internal", lambda f: nd.preorder_internal_node_iter(filter_fn=f, exclude_seed_node=ex), sub_ints_pre),
                         ("node_postorder_internal", lambda f: nd.postorder_internal_node_iter(filter_fn=f, exclude_seed_node=ex), sub_ints_post)):
-                    f, bad = pr.mkfilter(fs, P, False)
-                    w = [i for i in filt(want, P) if not (ex and i == root)]
-                    pr.expect(name, pr.run(name, lambda: call(f)), w, bad=bad)
+                    members = [i for i in want if not (ex and i == root)]
+                    f, bad = pr.mkfilter(P, False, members)
+                    pr.expect(name, pr.run(name, lambda: call(f)), filt(members, P), bad=bad)
             pr.where = "Node %d, %s" % (s, ftag(fs))
-            f, bad = pr.mkfilter(fs, P, False)
+            f, bad = pr.mkfilter(P, False, sub_pre)
             got = pr.run("node_levelorder", lambda: nd.levelorder_iter(filter_fn=f))
             check_level("node_levelorder", got, s, P, nlvl_unf, bad)
             if fs is None:
                 nlvl_unf = got
-            f, bad = pr.mkfilter(fs, P, False)
+            f, bad = pr.mkfilter(P, False, sub_pre)
             check_inorder("node_inorder", lambda: nd.inorder_iter(filter_fn=f), s, P, bad)
             for il in ((True, False) if ages else ()):
                 for desc in (False, True):
                     pr.where = "Node %d, %s, include_leaves=%r descending=%r" % (s, ftag(fs), il, desc)
-                    f, bad = pr.mkfilter(fs, P, False)
+                    f, bad = pr.mkfilter(P, False, [i for i in sub_pre if il or not isleaf[i]])
                     got = pr.run("node_ageorder", lambda: nd.ageorder_iter(filter_fn=f, include_leaves=il, descending=desc))
                     check_age("node_ageorder", got, s, P, il, desc, nage_unf.get((il, desc)), bad)
                     if fs is None:
@@ -609,11 +703,11 @@ def check_built(ctx, tree, rt, starts, filters, precalc=False, all_apply=True, a
             warnings.simplefilter("always")
             fs, P = fspecs[-1], psets[-1]
             pr.where = "Node %d deprecated alias, %s" % (s, ftag(fs))
-            f, bad = pr.mkfilter(fs, P, False)
+            f, bad = pr.mkfilter(P, False, sub_pre)
             got = pr.run("node_level_order", lambda: nd.level_order_iter(filter_fn=f))
             check_level("node_level_order", got, s, P, nlvl_unf, bad)
             if ages:
-                f, bad = pr.mkfilter(fs, P, False)
+                f, bad = pr.mkfilter(P, False, sub_pre)
                 got = pr.run("node_age_order", lambda: nd.age_order_iter(include_leaves=True, filter_fn=f, descending=False))
                 check_age("node_age_order", got, s, P, True, False, nage_unf[(True, False)], bad)
         check_apply(ctx, pr, rt, nd.apply, s, "node_apply", all_apply)
@@ -639,6 +733,10 @@ def check_built(ctx, tree, rt, starts, filters, precalc=False, all_apply=True, a
     for fs in filters:
         ctx.cls("filter:%s" % fs["kind"])
         ctx.cls("filter_values:%r/%r" % (TRUTHY[fs["tv"]], FALSY[fs["fv"]]))
+        ctx.cls("filter_predicate:%s" % ("partial (raises outside the iterator's class)" if fs.get("partial", True) else "total"))
+    ctx.cls("filtered_iterator_runs:partial_predicate", pr.runs["partial"])
+    ctx.cls("filtered_iterator_runs:total_predicate", pr.runs["total"])
+    ctx.cls("filtered_iterator_runs:stateful_predicate", pr.runs["stateful"])
     return rt, pr
 
 
